@@ -9,7 +9,8 @@ Notation entry := (Z * str)%type (only parsing).
 Notation queue := (list (Z * str)%type) (only parsing).
 
 Inductive qop :=
-| QPush (s : str) | QPop | QPopN (k : Z) | QPeek | QPeekN (k : Z) | QEmpty.
+| QPush (s : str) | QPop | QPopN (k : Z) | QPeek | QPeekN (k : Z) | QEmpty
+| QDropLast.   (* UnAckQueue.DropLast: Client.writeHeld calls it when the write of the packet just pushed is refused *)
 
 Inductive qout :=
 | QNil                      (* nil / no value *)
@@ -34,6 +35,14 @@ Definition push_id (st : qstate) : Z :=
   end.
 Definition q_push (st : qstate) (s : str) : qstate :=
   (fst st ++ [(push_id st, s)], push_id st).
+
+(* DropLast: when the tail entry carries lastId (it is the entry of the last Push, or of the Push before it
+   if that one was taken back already) it leaves the queue and lastId goes down by one; otherwise nothing *)
+Definition q_droplast (st : qstate) : qstate :=
+  match last_id (fst st) with
+  | Some i => if i =? snd st then (removelast (fst st), snd st - 1) else st
+  | None => st
+  end.
 
 (* PeekN: nil when n <= 0 or the queue is empty; else first min(n,len) *)
 Definition q_peekn (q : queue) (k : Z) : list entry :=
@@ -62,6 +71,7 @@ Definition q_step (st : qstate) (o : qop) : qstate * qout :=
   | QPeek => (st, one (q_peek q))
   | QPeekN k => (st, many (q_peekn q k))
   | QEmpty => (st, QBool (match q with [] => true | _ => false end))
+  | QDropLast => (q_droplast st, QNil)
   end.
 
 Definition q_init : qstate := ([], 0).
@@ -72,6 +82,10 @@ Fixpoint q_run (st : qstate) (ops : list qop) : list (qout * queue) :=
   | [] => []
   | o :: ops' => let '(st', r) := q_step st o in (r, fst st') :: q_run st' ops'
   end.
+
+(* the queue object after a history *)
+Definition q_exec (st : qstate) (ops : list qop) : qstate :=
+  fold_left (fun s o => fst (q_step s o)) ops st.
 
 (* ---- reference FIFO: a plain list of payloads ---- *)
 Definition fifo := list str.
@@ -90,6 +104,7 @@ Definition f_step (f : fifo) (o : qop) : fifo * fout :=
   | QPeek => (f, match f with [] => FNil | x :: _ => FOne x end)
   | QPeekN k => (f, fmany (f_take f k))
   | QEmpty => (f, FBool (match f with [] => true | _ => false end))
+  | QDropLast => (removelast f, FNil)   (* the newest entry is taken back *)
   end.
 
 Definition q_abs (q : queue) : fifo := map snd q.
@@ -97,4 +112,35 @@ Definition out_abs (o : qout) : fout :=
   match o with
   | QNil => FNil | QOne e => FOne (snd e)
   | QMany l => FMany (map snd l) | QBool b => FBool b
+  end.
+
+(* ---- reference for the numbering: the log of the payloads pushed and not taken back, oldest first, and
+   how many of them have left the queue at its head.  The sequence number of an entry is its position in
+   the log (from 1). ---- *)
+Definition nlog := (list str * nat)%type.
+Definition l_init : nlog := ([], O).
+Definition l_step (s : nlog) (o : qop) : nlog :=
+  let '(lg, p) := s in
+  match o with
+  | QPush x => (lg ++ [x], p)
+  | QPop => (lg, if (p <? length lg)%nat then S p else p)
+  | QPopN k => (lg, (p + length (f_take (skipn p lg) k))%nat)
+  | QDropLast => if (p <? length lg)%nat then (removelast lg, p) else (lg, p)
+  | QPeek | QPeekN _ | QEmpty => (lg, p)
+  end.
+Definition l_exec (s : nlog) (ops : list qop) : nlog := fold_left l_step ops s.
+
+(* l numbered a, a+1, ... *)
+Fixpoint numbered (a : Z) (l : list str) : queue :=
+  match l with [] => [] | x :: l' => (a, x) :: numbered (a + 1) l' end.
+
+(* number of pushes, and of DropLast calls that took an entry back (those made on a non-empty queue),
+   counted on the reference FIFO *)
+Definition n_pushes (ops : list qop) : nat :=
+  length (filter (fun o => match o with QPush _ => true | _ => false end) ops).
+Fixpoint n_taken_back (f : fifo) (ops : list qop) : nat :=
+  match ops with
+  | [] => O
+  | o :: ops' =>
+      ((match o, f with QDropLast, _ :: _ => 1 | _, _ => 0 end) + n_taken_back (fst (f_step f o)) ops')%nat
   end.
